@@ -196,7 +196,7 @@ M("C16", "ior-returns-copy", "_collections.py",
 M("C16", "extend-overwrites-mapping", "_collections.py",
   "            for key, val in other.items():\n                self.add(key, val)", "            for key, val in other.items():\n                self[key] = val", rule="C16-R4")
 M("C16", "setitem-keeps-old-values", "_collections.py",
-  "        self._container[key.lower()] = [key, val]", "        self._container[key.lower()] = [key, val] + self.getlist(key)", rule="C16-R4")
+  "        self._container[key.lower()] = [key, val]", "        self._container[key.lower()] = [key, val] + self.getlist(key)", rule="C16-R5")  # (the replacing-assignment clause moved from the storage discipline to the effect table of __setitem__)
 
 # --------------------------------------------------------------------------- C20
 M("C20", "escape-only-quote", "fields.py",
@@ -819,3 +819,5 @@ def B2(prop, n):
 for _p in ("C01", "C03", "C04", "C05", "C08", "C09", "C10", "C12", "C14", "C19", "C20"):
     for _n in range(1, 7):
         B2(_p, _n)
+for _n in range(1, 7):
+    B("C16", _n)
